@@ -25,12 +25,17 @@
     inside x y z    inside(inclusive=True) inside(inclusive=False) margin
     outside x y z   outside(inclusive=True) outside(inclusive=False) margin
     abcres a b c ca cb cg ly lz   residuals ly² - (b²-xy²), lz² - (c²-xz²-yz²)  (hypotheses of abc_gram)
+    kw name…   Box.set(**{name: …}): ok:<unit|vects|vectors|lengths|hilos|abc|origin> | err:assert | err:type
 -/
 import Atomman.C01
 open Atomman Atomman.C01
 
 /-- the double nearest to `1e-9` (the literal `atol=1e-9` of the setter), exactly. -/
 def thr : Rat := mkRat 4835703278458517 4835703278458516698824704
+
+def famName : SetFamily → String
+  | .unit => "unit" | .vects => "vects" | .vectors => "vectors" | .lengths => "lengths"
+  | .hilos => "hilos" | .abc => "abc" | .origin => "origin"
 
 def showBox (b : Box Rat) : String := showRats (b.vects.toList ++ b.origin.toList)
 
@@ -127,6 +132,12 @@ def stepC01 (c : CBox Rat) (toks : List String) : CBox Rat × String :=
       let (c2, r2) := doRead c1 (.outside Lams.ones p false)
       (c2, r1 ++ " " ++ r2 ++ " " ++ showRat (faceMargin (st.cartToRel p)))
     | _ => (c, err "format")
+  | "kw" :: names =>
+    -- Box.set(**kwargs) / Box(**kwargs): which parameter set the keyword names select (state untouched)
+    (c, match setOutcome names with
+        | .ok f => "ok:" ++ famName f
+        | .errAssert => err "assert"
+        | .errType => err "type")
   | _ => (c, err "op")
 
 def main : IO Unit := runDriverS stepC01 CBox.fresh
